@@ -483,7 +483,7 @@ func c20Render(c *run.Ctx, tree *critNode, f func(v interface{}) (string, error)
 func runC20(c *run.Ctx) {
 	// every tree shape to depth 3 with random leaves
 	total := countShapes(3)
-	reps := c.Pick(2, 12)
+	reps := c.Pick(2, 40)
 	for k := 0; k < total; k++ {
 		if !c.Mine(k) {
 			continue
@@ -499,7 +499,7 @@ func runC20(c *run.Ctx) {
 	}
 	c.Count("shapes_depth3", total)
 	// sampled depth 4 / 5
-	for i := 0; i < c.Pick(4000, 200000); i++ {
+	for i := 0; i < c.Pick(4000, 1000000); i++ {
 		if !c.Mine(i) {
 			continue
 		}
